@@ -15,6 +15,15 @@ import PyamgV.Proofs.ExtC17Safe
 import PyamgV.Proofs.ExtC17SafeBlock
 import PyamgV.Proofs.ExtC17SafeInterp
 import PyamgV.Proofs.ExtC17SafeTrunc
+import PyamgV.Proofs.ExtC17SafeR3Relax
+import PyamgV.Proofs.ExtC17SafeR3Split
+import PyamgV.Proofs.ExtC17SafeR3Schwarz
+import PyamgV.Proofs.ExtC17SafeR3Sa
+import PyamgV.Proofs.ExtC17SafeR3Cr
+import PyamgV.Proofs.ExtC17SafeR3Misc
+import PyamgV.Proofs.ExtC17SafeR3CC
+import PyamgV.Proofs.ExtC17SafeR3Interior
+import PyamgV.Proofs.ExtRsWholeSafe
 import PyamgV.Proofs.Bfs
 import PyamgV.Proofs.CC
 import PyamgV.Proofs.ColoringLoop
@@ -171,7 +180,109 @@ restate my_inner_while_safe := PyamgV.C17.imWhile_safe
 /-- `incomplete_mat_mult_csr`: `A` CSR, `B` CSC (sorted or not), `S` any valid pattern with `≤ A.n` rows and columns `< B.n` -/
 restate incomplete_mat_mult_csr_safe := PyamgV.C17.incompleteMatMult_safe
 
+/-! ### extension E25: the WHOLE of `rs_cf_splitting` (model `RS.runCk` in `Model/ExtRsCk.lean`, driver op `ext_rs_whole`)
+
+All five initialisation loops (lambda, histogram, prefix sums with the in-place zeroing, placement,
+`std::fill` + isolated nodes), the main loop with its `break`, the three inner loops with both
+bucket moves (`//invalid write!` included) and the clean-up loop, in the checked-execution monad.
+Negative intermediate values (counts, positions, lambdas) and a main loop running longer than `n`
+iterations clear the flag as well.  `WFp G n`: row pointer of length `n+1`, non-decreasing, last
+entry within `Gj`, the addressed column indices `< n`; nothing about `T = Sᵀ`, sortedness,
+duplicates or diagonals. -/
+/-- every array access of the whole first pass is in range, nothing goes negative, the main loop ends
+within `n` iterations, and the run returns what the executable model `RS.run` returns -- for every
+pair of structurally valid patterns `S`, `T` of any size -/
+restate rs_cf_splitting_safe := PyamgV.RS.rs_cf_splitting_safe
+/-- one definition: the checked model computes `RS.run` (the model `rs`/`c13` compare with the kernel and the
+C13 theorems are about) on every input, well formed or not -/
+restate rs_cf_splitting_checked_eq_model := PyamgV.RS.runCk_val
+/-- the main loop alone, started from the counting-sort state: in range and finished within fuel `n` -/
+restate rs_main_loop_terminates := PyamgV.RS.rs_main_loop_terminates
+/-- one iteration of the main loop from any state satisfying the bucket invariant with `top + 1` unvisited positions -/
+restate rs_main_loop_step_safe := PyamgV.RS.stepCk_safe
+/-- the initialisation needs only the transpose pattern to be structurally valid -/
+restate rs_init_safe := PyamgV.RS.initCk_ok
+
+/-! ### extension E19 (round 3): ten more kernels (models in `Model/ExtC17CkR3*.lean`, driver ops `ext_c17r3_*`)
+
+Same reading as above: the `.val` of each model is compared exactly with the rebuilt kernel on every run, the
+theorems are about its `ok` flag.  Nested loops that may not terminate (`while` with `break`, `while(true)`)
+run on fuel inside `orFault`, so `ok = true` includes their termination. -/
+/-- `bsr_jacobi_indexed`: any block size, any list of block rows (repetitions, empty list), the private copy `temp(x_size)` -/
+restate bsr_jacobi_indexed_safe := PyamgV.C17.bsrJacobiIndexed_safe
+/-- `block_jacobi_indexed`: `Tx` holds `n·blocksize²` values -/
+restate block_jacobi_indexed_safe := PyamgV.C17.blockJacobiIndexed_safe
+/-- `rs_cf_splitting_pass2`: any `n × n` pattern and any `splitting`; `splitting[Cpt0] = F_NODE` is only reached with
+`Cpt0` a column index met earlier in the row -/
+restate rs_cf_splitting_pass2_safe := PyamgV.C17.rsPass2_safe
+/-- `approx_ideal_restriction_pass1`, any `distance`; `Cpts` any list of nodes, `Rp` one entry longer -/
+restate approx_ideal_restriction_pass1_safe := PyamgV.C17.airPass1_safe
+/-- `gemm` in the accumulate mode `('F','F','F','F')` (no `std::fill`), the mode of `overlapping_schwarz_csr` -/
+restate gemm_acc_safe := PyamgV.C17.gemmFFacc_safe
+/-- the search loop of `extract_subblocks` (`while(placeholder < Sp[i+1])` with two `break`s) terminates within
+`Sp[i+1] - placeholder` iterations, in range -/
+restate extract_subblocks_while_safe := PyamgV.C17.esWhile_safe
+/-- `extract_subblocks`: subdomains sorted or not, with repetitions, empty; `Tx` holds a block of `|subdomain d|²` values at `Tp[d]` -/
+restate extract_subblocks_safe := PyamgV.C17.extractSubblocks_safe
+/-- `overlapping_schwarz_csr`: work arrays of `max(nrows, max_d |subdomain d|)` entries (the repair of the working tree is what
+makes this provable for subdomains longer than `nrows`), every admissible range of subdomains -/
+restate overlapping_schwarz_csr_safe := PyamgV.C17.schwarz_safe
+/-- the computed `max_size` bounds every subdomain -/
+restate overlapping_schwarz_max_size := PyamgV.C17.swMaxSize_safe
+/-- `gemm` in mode `('F','F','T')` with overwrite (column-major result) -/
+restate gemm_colmajor_safe := PyamgV.C17.gemmFT_safe
+/-- `gemm` in mode `('F','T','F')` without overwrite (row-major `B`) -/
+restate gemm_rowmajorB_safe := PyamgV.C17.gemmTacc_safe
+/-- `satisfy_constraints_helper`, non-square blocks, any `NullDim` -/
+restate satisfy_constraints_helper_safe := PyamgV.C17.satisfyConstraints_safe
+/-- the packed-triangle offsets walked by `BsqCounter` in `calc_BtB`: `2·Σ_{m'<m}(nd-m') = m(2nd-m+1)`, so a row of
+`Bsq` needs `nd(nd+1)/2` entries -/
+restate calc_BtB_packed_offsets := PyamgV.C17.tri_closed
+/-- `calc_BtB`: `BsqCols ≥ NullDim(NullDim+1)/2` -/
+restate calc_BtB_safe := PyamgV.C17.calcBtB_safe
+/-- `incomplete_mat_mult_bsr`, non-square blocks and the scalar branch; the pointer array `S` holds `NULL` or the offset
+of a stored block of the current row -/
+restate incomplete_mat_mult_bsr_safe := PyamgV.C17.incompleteMatMultBsr_safe
+/-- one pass of the `while(true)` loop of `cr_helper` that does not `break` lowers the number of non-zero weights -/
+restate cr_helper_pass_decreases := PyamgV.C17.crIter_safe
+/-- the `while(true)` loop of `cr_helper` terminates within (number of non-zero weights) + 1 passes -/
+restate cr_helper_while_terminates := PyamgV.C17.crWhile_safe
+/-- `cr_helper`: in range (through `Uindex`, `neighbors`, `omega` too), `while(true)` terminates within `n + 1` passes (this
+needs `omega[new_pt] = 0`, the repair of the working tree), the reordering writes `indices[1..n]` only.  Hypotheses on the
+abstract scalars (`CrOrd`): `0` tests as zero, `a > 0` implies `a != 0`, `a > m > 0` implies `a > 0` -/
+restate cr_helper_safe := PyamgV.C17.crHelper_safe
+
+/-! ### extension E19, krylov.h and graph.h: four kernels that were not on the list (`Model/ExtC17CkR3Misc.lean`) -/
+/-- `apply_householders`: `B` holds `R` reflectors of length `n`, every admissible range of reflectors (forward and backward);
+the running `index` is `i·n`; `dot_prod` and `axpy` inlined -/
+restate apply_householders_safe := PyamgV.C17.applyHouseholders_safe
+/-- `householder_hornerscheme`: additionally `z[i] += y[i]`, so `R ≤ n` and `R ≤ |y|` -/
+restate householder_hornerscheme_safe := PyamgV.C17.hornerScheme_safe
+/-- `apply_givens`: `nrot + 1 ≤ |x|`, `4·nrot ≤ |B|` -/
+restate apply_givens_safe := PyamgV.C17.applyGivens_safe
+/-- `floyd_warshall` on one cluster: `L` maps the members of cluster `a` to `0..N-1`, `D`, `P` dense `N × N` -/
+restate floyd_warshall_safe := PyamgV.C17.floydWarshall_safe
+/-- the strided-loop rule with an index-dependent invariant used for the running `index` -/
+restate strided_loop_indexed_invariant := PyamgV.C17.forStride_safe_idx
+
+/-- one pass of `while(!DFS.empty())` in `connected_components` lowers `2·(unmarked nodes) + |DFS|` -/
+restate connected_components_pass_decreases := PyamgV.C17.ccPass_safe
+/-- `connected_components` (the `Ck` transcription with the explicit stack; `cc_total` above is about the proof-side model):
+in range and every depth-first search terminates within `2n + 1` passes, any `n × n` pattern -/
+restate connected_components_safe := PyamgV.C17.connectedComponents_safe
+
+/-- a Bellman-Ford pass only copies entries of `m`: they stay `-1` or cluster numbers -/
+restate bellman_ford_keeps_cluster_numbers := PyamgV.C17.bellmanFord_safe2
+/-- `most_interior_nodes` (boundary marking with `break`, the call of `bellman_ford`, the new centres `c[m[i]] = i`) -/
+restate most_interior_nodes_safe := PyamgV.C17.mostInterior_safe
+
 /-! ### non-vacuity: the flag is true on a well-formed input and false on a malformed one -/
+/-- `rs_cf_splitting`, whole-kernel model: path 0-1-2-3 runs clean ... -/
+example : (PyamgV.RS.runCk PyamgV.RS.path4 PyamgV.RS.path4).ok = true := by decide
+/-- ... a column index `5 >= n = 2` in `Tj` is caught ... -/
+example : (PyamgV.RS.runCk ⟨2, #[0,1,2], #[1,0]⟩ ⟨2, #[0,1,2], #[1,5]⟩).ok = false := by decide
+/-- ... and so is a decreasing row pointer of `T` (negative lambda) -/
+example : (PyamgV.RS.runCk ⟨2, #[0,1,2], #[1,0]⟩ ⟨2, #[0,2,1], #[1,0]⟩).ok = false := by decide
 /-- path 0–1–2: `naive_aggregation` model, two aggregates, no fault -/
 example : (C17.naiveAgg 3 #[0,1,3,4] #[1,0,2,1] #[7,7,7] #[9,9,9]).ok = true := by decide
 /-- a column index `5 ≥ n = 2` is caught by the flag -/
@@ -198,6 +309,35 @@ example : (C17.directPass2 exOps exIOps ⟨3, #[0,3,4,5], #[0,1,2,1,2], #[4,-1,-
 example : (C17.interpPass1 3 #[0,2,2,2] #[1,2] #[0,1,1] #[-7,-7,-7,-7]).val = #[0,2,3,4] := by decide
 /-- quicksort on a reversed row of four entries terminates within its fuel -/
 example : (C17.truncateRows exOps (fun a b => decide (a < b)) 2 ⟨1, #[0,4], #[0,1,2,3], #[4,3,2,1]⟩).ok = true := by decide
+
+/-- E19: one 2×2 diagonal block, `indices = [0, 0]`: the `bsr_jacobi_indexed` model runs clean; it faults when `indices` names block row 1 -/
+example : (C17.bsrJacobiIndexed exOps #[1] ⟨1, #[0,1], #[0], #[2,1,1,2]⟩ #[4,4] #[0,0] 2 #[0,0]).ok = true := by decide
+example : (C17.bsrJacobiIndexed exOps #[1] ⟨1, #[0,1], #[0], #[2,1,1,2]⟩ #[4,4] #[1] 2 #[0,0]).ok = false := by decide
+/-- E19: `WFsub` is satisfiable (two subdomains `{0,1}`, `{1}` of a 2×2 matrix, `Tp = [0,4,5]`): `extract_subblocks` runs clean,
+and faults when `Tx` is one entry short -/
+example : (C17.extractSubblocks exOps ⟨2, #[0,2,4], #[0,1,0,1], #[4,-1,-1,4]⟩ #[7,7,7,7,7] #[0,4,5] #[0,1,1] #[0,2,3] 2).val = #[4,-1,-1,4,4] := by decide
+example : (C17.extractSubblocks exOps ⟨2, #[0,2,4], #[0,1,0,1], #[4,-1,-1,4]⟩ #[7,7,7,7] #[0,4,5] #[0,1,1] #[0,2,3] 2).ok = false := by decide
+/-- E19: a subdomain listing node 0 three times on a 2-row matrix (longer than `nrows`): the Schwarz model terminates with the flag set -/
+example : ((C17.schwarz exOps ⟨2, #[0,2,4], #[0,1,0,1], #[4,-1,-1,4]⟩ #[1,1] #[1,0,0,0,1,0,0,0,1] #[0,9] #[0,0,0] #[0,3] 1 2 0 1 1 2 #[0,0]).map (·.ok)) = some true := by decide
+/-- E19: `cr_helper` on the path 0–1–2 with diagonal, all F, `e = B = 1`: the `while(true)` loop terminates inside its fuel -/
+example : (C17.crHelper exOps ⟨fun a b => decide (b < a), id⟩ #[0,2,5,7] #[0,1,0,1,2,1,2] #[1,1,1] #[1,1,1] #[3,0,1,2] #[0,0,0] #[0,0,0] 0).ok = true := by decide
+/-- … and the hypotheses `CrOrd` on the scalars hold for the integers -/
+example : C17.CrOrd exOps ⟨fun a b => decide (b < a), id⟩ :=
+  ⟨by decide, fun a h => by have : (0 : Int) < a := of_decide_eq_true h; show (a == 0) = false; exact beq_false_of_ne (by omega),
+   fun a m h1 h2 => by
+    have e1 : m < a := of_decide_eq_true h1
+    have e2 : (0 : Int) < m := of_decide_eq_true h2
+    exact decide_eq_true (by show (0 : Int) < a; omega)⟩
+/-- E19: the pointer array of `incomplete_mat_mult_bsr`: 1×2 blocks times 2×1 blocks on a one-entry pattern -/
+example : (C17.incompleteMatMultBsr exOps ⟨1, #[0,1], #[0], #[1,2]⟩ ⟨1, #[0,1], #[0], #[3,4]⟩ ⟨1, #[0,1], #[0], #[5]⟩ 1 1 2 1).val.1 = #[16] := by decide
+
+/-- E19: two reflectors of length 2 applied backwards: the model terminates with the flag set; with `B` one entry short it faults -/
+example : ((C17.applyHouseholders exOps #[1,0,0,1] 2 1 (-1) (-1) 2 #[1,1]).map (·.ok)) = some true := by decide
+example : ((C17.applyHouseholders exOps #[1,0,0] 2 1 (-1) (-1) 2 #[1,1]).map (·.ok)) = some false := by decide
+
+/-- E19: path 0–1 plus the isolated node 2: two components, the searches terminate inside their fuel -/
+example : (C17.connectedComponents 3 #[0,1,2,2] #[1,0] #[7,7,7]).val = (#[0,0,1], 2) := by decide
+example : (C17.connectedComponents 3 #[0,1,2,2] #[1,0] #[7,7,7]).ok = true := by decide
 
 /-! ### interface facts regenerated from the working tree on every run (translator tie):
 signatures and const-ness of every native kernel (which arrays a kernel may write) -/
